@@ -21,7 +21,7 @@ pub static DEF: PropDef = PropDef {
     id: "C14",
     level: "fault_enumeration",
     engine: "split",
-    rule: "sweep phase (fault enumeration): for generated old-shard datasets (2..5 chunks, rows below / at / above the split point) on both catalog backends, the fault-free split issues R object-store requests; one run per (request index 0..R-1) x {fail before effect, fail after effect, crash before, crash after}, each followed by the driver protocol with faults off (resume while a progress file exists, else restart the split if the old shard is still Active, at most 6 attempts, every attempt with a fresh catalog client and splitter); random phase: 2..3 nested interruptions (faults and crashes also inside resumed runs); the splitter's 10 s and 300 s sleeps run in virtual time; distinct = distinct (dataset, fault position/kind or decision sequence); non-trivial = completed AND at least one interruption fired",
+    rule: "sweep phase (fault enumeration): for generated old-shard datasets (2..13 chunks, rows below / at / above the split point) on both catalog backends, the fault-free split issues R object-store requests; one run per (request index 0..R-1) x {fail before effect, fail after effect, crash before, crash after}, each followed by the driver protocol with faults off (resume while a progress file exists, else restart the split if the old shard is still Active, at most 6 attempts, every attempt with a fresh catalog client and splitter); random phase: 2..3 nested interruptions (faults and crashes also inside resumed runs); the splitter's 10 s and 300 s sleeps run in virtual time; distinct = distinct (dataset, fault position/kind or decision sequence); non-trivial = completed AND at least one interruption fired",
     quick_runs: 2000,
     thorough_runs: 20_000,
     run_cap_ms: 60_000,
@@ -33,7 +33,10 @@ pub static DEF: PropDef = PropDef {
 };
 
 const OLD: &str = "oldshard";
+/// a second shard that is split at the same time by another node (a third of the random object-store runs)
+const OLD2: &str = "second-shard";
 
+#[derive(Clone)]
 struct World {
     inner: Arc<InMemory>,
     local: Option<Arc<LocalMetadataClient>>,
@@ -74,7 +77,7 @@ fn scen(spec: RunSpec) -> ScenFut {
             let five = 5 * 60 * SEC;
             (mid / five) * five
         };
-        let n_chunks = sim::w_range(2, 5) as usize;
+        let n_chunks = [2usize, 3, 4, 5, 2, 3, 4, 5, 6, 7, 10, 13][sim::w(12) as usize];
         let pw = ParquetWriter::new();
         let (setup_meta, _) = client(&w, 7);
         sim::set_cfg(|c| c.enabled = false);
@@ -154,6 +157,108 @@ fn scen(spec: RunSpec) -> ScenFut {
             }
         });
         sim::log(format!("CONFIG variant={} catalog={} chunks={n_chunks} rows={} split_ts={split_ts}", spec.variant, if use_local { "local" } else { "object-store" }, original.len()));
+        // ---- a second split, of another shard, by another node, at the same time (fault-free, but interleaved) ----
+        let two_splits = !is_sweep && !use_local && sim::w(3) == 2;
+        let mut original2: BTreeMap<i64, i64> = BTreeMap::new();
+        let second_new_ids: Arc<std::sync::Mutex<BTreeSet<String>>> = Arc::new(std::sync::Mutex::new(BTreeSet::new()));
+        let second_done = Arc::new(std::sync::atomic::AtomicBool::new(false));
+        let mut second: Option<tokio::task::JoinHandle<Vec<String>>> = None;
+        if two_splits {
+            sim::probe("two-splits-at-once");
+            sim::set_cfg(|c| c.enabled = false);
+            for k in 0..sim::w_range(1, 2) {
+                let rows: Vec<Row> = (0..sim::w_range(1, 3)).map(|_| gen.row(split_ts + (sim::w(400) as i64 - 200) * SEC, false)).collect();
+                for r in &rows {
+                    original2.insert(r.id, r.ts);
+                }
+                let bytes = pw.write_batch(&batch(0, &rows)).unwrap();
+                let path = format!("default/data/shard={OLD2}/chunk_{k}.parquet");
+                inner.put(&Path::from(path.clone()), PutPayload::from(bytes.clone())).await.unwrap();
+                let (mn, mx) = (rows.iter().map(|r| r.ts).min().unwrap(), rows.iter().map(|r| r.ts).max().unwrap());
+                setup_meta.register_chunk(&path, &ChunkMetadata { path: path.clone(), min_timestamp: mn, max_timestamp: mx, row_count: rows.len() as u64, size_bytes: bytes.len() as u64 }).await.unwrap();
+            }
+            let old2_meta = ShardMetadata { shard_id: OLD2.to_string(), ..old_meta.clone() };
+            setup_meta.update_shard_metadata(OLD2, &old2_meta, 0).await.unwrap();
+            sim::set_cfg(|c| c.enabled = true);
+            // watcher: learns the ids of the second split's new shards from its split state
+            {
+                let (wmeta, _) = client(&w, 6);
+                let ids = second_new_ids.clone();
+                let done = second_done.clone();
+                tokio::spawn(async move {
+                    while !done.load(std::sync::atomic::Ordering::SeqCst) {
+                        if let Ok(Some(st)) = wmeta.get_split_state(OLD2).await {
+                            ids.lock().unwrap().extend(st.new_shards.iter().cloned());
+                        }
+                        tokio::time::sleep(Duration::from_millis(500)).await;
+                    }
+                });
+            }
+            let w2 = w.clone();
+            let done = second_done.clone();
+            // it begins when the first split issues its k-th request on the shared split-state object (k drawn: its
+            // start_split, one of its progress updates, or its complete_split), and from then on the scheduler prefers
+            // the second node's requests - so that the second split's first steps fall inside one of the first
+            // split's read-modify-write windows on that object
+            let kth = 1 + sim::w(14);
+            // ... in half of these runs it is the window of complete_split itself: the first read of the split-state object
+            // after the old shard was marked for deletion
+            let at_complete = sim::w_bool(50);
+            let go = Arc::new(tokio::sync::Notify::new());
+            {
+                let go = go.clone();
+                let cnt = std::sync::atomic::AtomicU32::new(0);
+                let fired = std::sync::atomic::AtomicBool::new(false);
+                store::set_issue_observer(Box::new(move |node: u32, op: &str, path: &str| {
+                    if node != 0 || !path.contains("split-states.json") || fired.load(std::sync::atomic::Ordering::SeqCst) {
+                        return;
+                    }
+                    let n = cnt.fetch_add(1, std::sync::atomic::Ordering::SeqCst) + 1;
+                    let hit = if at_complete {
+                        op == "GET"
+                            && store::with_events(|ev| {
+                                ev.iter().any(|e| e.op == "PUT" && e.ok && e.path.contains(&format!("{OLD}.json")) && e.path.contains("shard") && e.payload.as_ref().map(|p| String::from_utf8_lossy(p).contains("PendingDeletion")).unwrap_or(false))
+                            })
+                    } else {
+                        n == kth
+                    };
+                    if hit {
+                        fired.store(true, std::sync::atomic::Ordering::SeqCst);
+                        go.notify_one();
+                        sim::set_cfg(|c| {
+                            c.starve_node = Some(0);
+                            c.starve_pct = 90;
+                        });
+                    }
+                }));
+            }
+            second = Some(tokio::spawn(async move {
+                tokio::select! {
+                    _ = go.notified() => {}
+                    _ = tokio::time::sleep(Duration::from_secs(60)) => {}
+                }
+                let mut errs: Vec<String> = Vec::new();
+                for attempt in 0..12 {
+                    let (m5, s5) = client(&w2, 5);
+                    let sp = ShardSplitter::new(m5.clone(), s5);
+                    let has_progress = sp.load_progress(OLD2).await.ok().flatten().is_some();
+                    let still_active = m5.get_shard_metadata(OLD2).await.ok().flatten().map(|m| m.is_active()).unwrap_or(false);
+                    let r = if attempt == 0 || (!has_progress && still_active) {
+                        sp.execute_split_with_monitoring(&old2_meta).await
+                    } else if has_progress {
+                        sp.resume_split(OLD2).await.map(|_| ())
+                    } else {
+                        break;
+                    };
+                    match r {
+                        Ok(()) => {}
+                        Err(e) => errs.push(e.to_string()),
+                    }
+                }
+                done.store(true, std::sync::atomic::Ordering::SeqCst);
+                errs
+            }));
+        }
         // ---- driver ----
         let mut attempts = 0;
         let mut errors: Vec<String> = Vec::new();
@@ -242,6 +347,48 @@ fn scen(spec: RunSpec) -> ScenFut {
         if restarted_from_scratch {
             sim::probe("restarted-from-scratch-run");
         }
+        // ---- the second split (if any) must have finished like an uninterrupted one ----
+        if let Some(h) = second.take() {
+            let errs2 = h.await.unwrap_or_default();
+            let (m7, s7) = client(&w, 7);
+            let sp7 = ShardSplitter::new(m7.clone(), s7);
+            let old2_now = m7.get_shard_metadata(OLD2).await.ok().flatten();
+            let pending = matches!(old2_now.as_ref().map(|m| &m.state), Some(ShardState::PendingDeletion { .. }));
+            let progress_left = sp7.load_progress(OLD2).await.ok().flatten().is_some();
+            let state_left = m7.get_split_state(OLD2).await.ok().flatten().is_some();
+            if !pending || progress_left || state_left {
+                sim::violation(
+                    "C14/second-split/not-finished",
+                    format!("a second shard split at the same time by another node (no faults) ended with old shard {:?}, progress file present: {progress_left}, split state present: {state_left}; errors: {:?}", old2_now.as_ref().map(|m| &m.state), errs2.iter().rev().take(2).collect::<Vec<_>>()),
+                );
+            } else {
+                let ids2: Vec<String> = second_new_ids.lock().unwrap().iter().cloned().collect();
+                let mut got2: BTreeMap<i64, u32> = BTreeMap::new();
+                let mut active2 = 0;
+                for id in &ids2 {
+                    if m7.get_shard_metadata(id).await.ok().flatten().map(|m| m.is_active()).unwrap_or(false) {
+                        active2 += 1;
+                    }
+                    let mut seen = BTreeSet::new();
+                    for c in m7.get_chunks_for_shard(id).await.unwrap_or_default() {
+                        if !seen.insert(c.chunk_path.clone()) {
+                            continue;
+                        }
+                        if let Ok(bs) = read_chunk(&inner, &c.chunk_path).await {
+                            for b in &bs {
+                                for id in ids_of(b) {
+                                    *got2.entry(id).or_insert(0) += 1;
+                                }
+                            }
+                        }
+                    }
+                }
+                let want2: BTreeMap<i64, u32> = original2.keys().map(|i| (*i, 1)).collect();
+                if active2 != 2 || got2 != want2 {
+                    sim::violation("C14/second-split/end-state-or-rows-wrong", format!("second split: {active2} active new shards (ids {:?}); rows in them {:?}, old shard held {:?}", ids2, got2, want2.keys().collect::<Vec<_>>()));
+                }
+            }
+        }
         // ---- oracle ----
         let (ometa, ostore) = client(&w, 7);
         let osplitter = ShardSplitter::new(ometa.clone(), ostore);
@@ -286,13 +433,13 @@ fn scen(spec: RunSpec) -> ScenFut {
         for p in &all {
             if p.contains("shards") && p.ends_with(".json") {
                 let id = p.rsplit('/').next().unwrap().trim_end_matches(".json").to_string();
-                if id != OLD {
+                if id != OLD && id != OLD2 && !second_new_ids.lock().unwrap().contains(&id) {
                     shard_ids.insert(id);
                 }
             }
         }
         // ids announced in the persisted split progress (the in-memory backend has no listable shard objects)
-        if let Some(v) = store::versions("split-progress").last() {
+        if let Some(v) = store::versions(&format!("split-progress/{OLD}")).last() {
             if let Ok(j) = serde_json::from_slice::<serde_json::Value>(v.payload.as_ref().unwrap()) {
                 if let Some(a) = j["new_shards"].as_array() {
                     for x in a {
@@ -404,6 +551,10 @@ fn early_delete_monitor(old_paths: &[String], use_local: bool) {
     let mut cutover_ev: Option<u64> = None;
     let mut seen_state = false;
     for e in &events {
+        // (an implementation may also drop the whole object once no split is left in it)
+        if e.op == "DELETE" && e.ok && e.path.contains("split-states.json") && seen_state && cutover_ev.is_none() {
+            cutover_ev = Some(e.ev);
+        }
         if e.op == "PUT" && e.ok && e.path.contains("split-states.json") {
             if let Some(p) = &e.payload {
                 let has = String::from_utf8_lossy(p).contains(OLD);
